@@ -348,3 +348,7 @@ func Advance(d time.Duration) { time.Sleep(d) }
 
 // Yield marks a scheduling point (used by harness doubles in schedule exploration).
 func Yield(what string) { runtime.Gosched() }
+
+// KnownDeadlockIf attributes a deadlock detected by the engine to the known
+// finding id when *cond holds at that moment.
+func KnownDeadlockIf(id string, cond *bool) {}
